@@ -462,7 +462,22 @@ func (x *Exec) writePath(cur Val, path []pathElem, v Val) Val {
 				okAll := true
 				for i, e := range gs.Elems {
 					et, isT := e.(*Term)
-					if !isT || et.Sort != es {
+					if !isT && isPtrSort(es) && x.curState != nil {
+						// an element that is a pointer to a message struct: optional value
+						switch pv := e.(type) {
+						case *NilPtr:
+							et, isT = Con(es, True, ZeroOf(es.Fields[1].Sort)), true
+						case *PtrVal:
+							if cur, ok := x.load(x.curState, pv).(*Term); ok && cur.Sort == es.Fields[1].Sort {
+								nl := False
+								if pv.Nil != nil {
+									nl = pv.Nil
+								}
+								et, isT = Con(es, nl, cur), true
+							}
+						}
+					}
+					if !isT || et == nil || et.Sort != es {
 						okAll = false
 						break
 					}
